@@ -31,6 +31,7 @@ type c22Snap struct {
 type c22Node struct {
 	m   *machine.M
 	mod ref.Joypad
+	st  int // start state (the rest of the machine: DMA in flight, LCD/sound off); part of the key
 }
 
 func (n *c22Node) Apply(ev c22Ev) *explore.Fail {
@@ -76,7 +77,7 @@ func (n *c22Node) Apply(ev c22Ev) *explore.Fail {
 
 func (n *c22Node) Key() string {
 	// every field of the real Controller, whatever it is called (not a list of known fields)
-	return fmt.Sprintf("%s|%02x%x%x", explore.DeepKey(*n.m.C, 64), n.mod.Sel, n.mod.Dirs, n.mod.Btns)
+	return fmt.Sprintf("%d|%s|%02x%x%x", n.st, explore.DeepKey(*n.m.C, 64), n.mod.Sel, n.mod.Dirs, n.mod.Btns)
 }
 
 func init() {
@@ -95,9 +96,17 @@ func init() {
 		evs = append(evs, c22Ev{"read", 0})
 		explore.BFS(c.R, explore.BFSSpec[int, c22Ev, *c22Node]{
 			Name:   "joypad-closure",
-			Starts: []int{0},
-			New: func(int) *c22Node {
-				return &c22Node{m: machine.New(machine.ROMOnly(), machine.Opts{}), mod: ref.NewJoypad()}
+			Starts: []int{0, 1, 2},
+			New: func(st int) *c22Node {
+				n := &c22Node{m: machine.New(machine.ROMOnly(), machine.Opts{}), mod: ref.NewJoypad(), st: st}
+				switch st {
+				case 1: // an OAM DMA in flight (no machine cycle passes in this closure, so it stays in flight)
+					n.m.Map.Write(0xff46, 0xc0)
+				case 2: // LCD and sound switched off
+					n.m.Map.Write(0xff40, 0x00)
+					n.m.Map.Write(0xff26, 0x00)
+				}
+				return n
 			},
 			Save:       func(n *c22Node) any { return c22Snap{*n.m.C, n.mod} },
 			Load:       func(n *c22Node, s any) { *n.m.C, n.mod = s.(c22Snap).C, s.(c22Snap).Mod },
@@ -105,7 +114,7 @@ func init() {
 			Events:     func(*c22Node) []c22Ev { return evs },
 			MaxDepth:   0,
 			MaxDev:     -1,
-			Opt:        explore.PartOpt{Bound: "unbounded depth, closure", Domain: "16 press/release events + 256 JOYP writes + read, from power-on"},
+			Opt:        explore.PartOpt{Bound: "unbounded depth, closure", Domain: "16 press/release events + 256 JOYP writes + read, from power-on, with an OAM DMA in flight, and with LCD and sound off"},
 		})
 	})
 }
